@@ -265,5 +265,5 @@ Theorem C04_pipeline_nonvacuous :
       = Some ([Ok (Some ex_tree); Ok (Some ex_tree)], [])
   | None => False
   end.
-Proof. exact (conj toy_open_seal (conj toy_seal_len pipeline_example)). Qed.
+Proof. split; [exact toy_open_seal | split; [exact toy_seal_len | exact pipeline_example]]. Qed.
 Print Assumptions C04_pipeline_nonvacuous.
